@@ -26,3 +26,7 @@ class OverwriteClassesWrapper(KDWrapper):
         if torch.is_tensor(cls):
             cls = cls.item()
         return cls
+
+    def getall_class(self):
+        # without this the bulk accessor is delegated to the wrapped dataset (the labels before overwriting)
+        return [self.getitem_class(idx) for idx in range(len(self))]
